@@ -63,7 +63,7 @@ func conditionalAppendsInIterations(v *FnView) []condAppend {
 		}
 		var conds []string
 		for _, f := range v.factsAt(as, false) {
-			if f.At == nil || f.At.Pos() < step.Pos() || f.At.End() > step.End() {
+			if f.At == nil || f.At.Pos() < step.Pos() || f.At.End() > step.End() || f.LoopCond {
 				continue
 			}
 			if v.isSuccessOutcome(f) {
